@@ -49,6 +49,8 @@ def main():
         pgroup.Group.__hash__ = lambda self: hash((id(self) * 2654435761 + salt) % (2 ** 61 - 1))
     os.makedirs(spec["cwd"], exist_ok=True)
     os.chdir(spec["cwd"])
+    for fname, text in spec.get("files", {}).items():
+        open(fname, "w").write(text)
     out = []
     k = 0
     steps = spec["steps"]
